@@ -4,6 +4,7 @@ package gen
 
 import (
 	"math"
+	"strconv"
 
 	geom "github.com/twpayne/go-geom"
 	"pgregory.net/rapid"
@@ -88,7 +89,27 @@ func Float(t *rapid.T, classes int) model.F {
 	case Decimalish:
 		k := rapid.Int64Range(-1000000, 1000000).Draw(t, "k")
 		d := rapid.IntRange(0, 8).Draw(t, "d")
-		return model.Of(float64(k) / math.Pow10(d))
+		if rapid.IntRange(0, 3).Draw(t, "dlong") == 0 {
+			// few significant digits a long way behind the point (1e-23, 0.00...042):
+			// the shortest decimal form has 9 to 40 fractional digits; parsed from its
+			// text so that the value is the double nearest to that decimal
+			d = rapid.IntRange(9, 40).Draw(t, "dl")
+			v, _ := strconv.ParseFloat(strconv.FormatInt(k, 10)+"e-"+strconv.Itoa(d), 64)
+			return model.Of(v)
+		}
+		v := float64(k) / math.Pow10(d)
+		// the doubles next to a short decimal (what arithmetic such as float64(e7)*1e-7
+		// produces): their shortest form is long, a formatter that looks for the short
+		// decimal nearby must not mistake them for it
+		switch rapid.IntRange(0, 5).Draw(t, "ulp") {
+		case 0:
+			v = math.Nextafter(v, math.Inf(1))
+		case 1:
+			v = math.Nextafter(v, math.Inf(-1))
+		case 2:
+			v = float64(k) * math.Pow(10, -float64(d)) // the product instead of the quotient
+		}
+		return model.Of(v)
 	case Big200:
 		e := rapid.IntRange(-60, 200).Draw(t, "e")
 		m := rapid.Uint64Range(0, 1<<52-1).Draw(t, "m")
